@@ -172,6 +172,12 @@ Section Shift.
     destruct (p_warn_split p), (p_warn_content p); reflexivity.
   Qed.
 
+  Lemma shift_fill_lines k pos ns :
+    fill_lines (pos + k) (map (shift_node k) ns) = map (shift_node k) (fill_lines pos ns).
+  Proof.
+    unfold fill_lines. rewrite !map_map. apply map_ext. intros [t p [l|] ks]; reflexivity.
+  Qed.
+
   Lemma equiv_directive rd : equiv rd ->
     forall top ho h name first content pos pre k,
       den_directive env orc rd top ho h name first content (pos + k) pre
@@ -187,12 +193,13 @@ Section Shift.
       destruct (admonition_run shared (den_mock_state env orc rd ho pos) titled name (p_args p) attrs
                   (p_body p) (p_off p - pre)%nat pos h) as [[out h']|e]; [|reflexivity].
       cbn [map_res bind fst snd]. destruct out as [ns|l m]; cbn [shift_dout map_res];
-        unfold shift_dres; cbn [fst snd]; rewrite !map_app; reflexivity.
+        unfold shift_dres; cbn [fst snd]; rewrite !map_app; rewrite ?shift_fill_lines; reflexivity.
     - exfalso. exact (so_no_include O_shift name cls Ed).
     - rewrite (so_other O_shift).
       destruct (o_other_directive orc name (p_args p) (p_optblock p) (p_body p) (p_off p - pre)%nat pos h)
         as [ons h'].
-      cbn [fst snd bind map_res]. unfold shift_dres. cbn [fst snd]. rewrite !map_app. reflexivity.
+      cbn [fst snd bind map_res]. unfold shift_dres. cbn [fst snd]. rewrite !map_app.
+      rewrite shift_fill_lines. reflexivity.
   Qed.
 
   Lemma equiv_step rd : equiv rd -> equiv (den_step env orc rd).
